@@ -38,15 +38,22 @@ theorem lowerQ_charge (ci : Int) : ∀ (q : Nat) (rem0 : Int),
       exact ih
     · rfl
 
-/-- A PVQ index is read by `leaf` only if the tracked budget, charged with the cached cost, stays non-negative; and the
-    tracked budget after the leaf is exactly the budget before minus that cached cost. -/
+/-- The pulse count (pseudo-pulse index `q`) a no-split partition ends with: `bits2pulses(b)` lowered by the
+    "never bust the budget" loop. -/
+def leafQ (i lm1 : Nat) (b : Int) (s : BSt) : Nat :=
+  (lowerQ (rowOf lm1 i) (Rate.bits2pulsesRow (cacheAt (rowOf lm1 i)) b)
+    (p2b (rowOf lm1 i) (Rate.bits2pulsesRow (cacheAt (rowOf lm1 i)) b))
+    (s.rem - p2b (rowOf lm1 i) (Rate.bits2pulsesRow (cacheAt (rowOf lm1 i)) b))).1
+
+/-- With `q = leafQ …`: the tracked budget after the leaf is the budget before minus the cached cost `pulses2bits(q)` of
+    exactly that `q`; for `q = 0` nothing is read; for `q ≠ 0` the budget is still non-negative and the one call the leaf
+    adds to the trace is `ec_dec_uint(V(N, get_pulses(q)))` for that same `q`. -/
 theorem leaf_budget (i lm1 N : Nat) (b : Int) (s : BSt) :
-    (leaf i lm1 N b s).rem = s.rem - p2b (rowOf lm1 i)
-      (lowerQ (rowOf lm1 i) (Rate.bits2pulsesRow (cacheAt (rowOf lm1 i)) b)
-        (p2b (rowOf lm1 i) (Rate.bits2pulsesRow (cacheAt (rowOf lm1 i)) b))
-        (s.rem - p2b (rowOf lm1 i) (Rate.bits2pulsesRow (cacheAt (rowOf lm1 i)) b))).1 ∧
-    ((leaf i lm1 N b s).tr ≠ s.tr → 0 ≤ (leaf i lm1 N b s).rem) := by
-  unfold leaf
+    (leaf i lm1 N b s).rem = s.rem - p2b (rowOf lm1 i) (leafQ i lm1 b s) ∧
+    (leafQ i lm1 b s = 0 → (leaf i lm1 N b s).tr = s.tr) ∧
+    (leafQ i lm1 b s ≠ 0 → 0 ≤ (leaf i lm1 N b s).rem ∧
+      ∃ v, (leaf i lm1 N b s).tr = .uint (pvqFt N (Rate.getPulses (leafQ i lm1 b s))) v :: s.tr) := by
+  unfold leaf leafQ
   have hc := lowerQ_charge (rowOf lm1 i) (Rate.bits2pulsesRow (cacheAt (rowOf lm1 i)) b) s.rem
   have hn := lowerQ_nonneg (rowOf lm1 i) (Rate.bits2pulsesRow (cacheAt (rowOf lm1 i)) b)
     (p2b (rowOf lm1 i) (Rate.bits2pulsesRow (cacheAt (rowOf lm1 i)) b))
@@ -59,14 +66,18 @@ theorem leaf_budget (i lm1 N : Nat) (b : Int) (s : BSt) :
   split
   · rename_i hq
     have hr : (({ s with rem := rem, fault := s.fault || !rowOk (rowOf lm1 i) } : BSt).uint
-        (pvqFt N (Rate.getPulses q))).2.rem = rem := by
+        (pvqFt N (Rate.getPulses q))).2.rem = rem ∧
+        ∃ v, (({ s with rem := rem, fault := s.fault || !rowOk (rowOf lm1 i) } : BSt).uint
+          (pvqFt N (Rate.getPulses q))).2.tr = .uint (pvqFt N (Rate.getPulses q)) v :: s.tr := by
       unfold BSt.uint
       generalize decUint _ _ = z
       obtain ⟨v, c1⟩ := z
-      rfl
-    rw [hr]
-    exact ⟨hc, fun _ => hn hq⟩
-  · exact ⟨hc, fun h => absurd rfl h⟩
+      exact ⟨rfl, v, rfl⟩
+    rw [hr.1]
+    exact ⟨hc, fun h0 => absurd h0 hq, fun _ => ⟨hn hq, hr.2⟩⟩
+  · rename_i hq
+    have hq0 : q = 0 := by omega
+    exact ⟨hc, fun _ => rfl, fun h => absurd hq0 h⟩
 
 /-- A sign bit of an `N = 1` band is read only while a whole bit is left, and costs exactly 8. -/
 theorem n1One_budget (s : BSt) : ((n1One s).tr ≠ s.tr → 8 ≤ s.rem ∧ (n1One s).rem = s.rem - 8) ∧ ((n1One s).tr = s.tr → n1One s = s) := by
